@@ -101,6 +101,40 @@ pub fn run(ctx: &mut Ctx) {
     });
     ctx.require(&r, &["negative_multiple_of_a_day", "non_negative_multiple_of_a_day"]);
 
+    if ctx.thorough() {
+        // complete product at second resolution: every second of the day x every whole-second interval within +/-1 day
+        let r = ctx.sweep("all_seconds_x_all_second_intervals", "every second of the day (µs part = s mod 7 x 142,857) x every whole-second interval in -86,400..=86,400 s (and the same +/-3 µs) x {add, sub}; sub_time of every pair of seconds", 86_400, 16, |range, acc| {
+            for idx in range {
+                let t_us = idx as i64 * US_SEC + (idx as i64 % 7) * 142_857;
+                let t = Time::try_from_usecs(t_us).unwrap();
+                for s in -86_400i64..=86_400 {
+                    let iv_us = s * US_SEC + (s % 7 - 3);
+                    let iv = IntervalDT::try_from_usecs(iv_us).unwrap();
+                    acc.states += 1;
+                    acc.t(2);
+                    acc.traces += 2;
+                    let wa = (t_us + iv_us).rem_euclid(US_DAY);
+                    let ws = (t_us - iv_us).rem_euclid(US_DAY);
+                    if wa != t_us + iv_us || ws != t_us - iv_us { acc.nontrivial += 1; }
+                    let got = guard(|| (t.add_interval_dt(iv).usecs(), t.sub_interval_dt(iv).usecs()));
+                    if got != Ok((wa, ws)) {
+                        acc.fail("C12:Time:add_interval_dt:not-modulo-24h", idx, || (format!("Time({t_us}).add_interval_dt / sub_interval_dt (IntervalDT({iv_us}))"), format!("({wa}, {ws})"), format!("{got:?}"), String::new()));
+                    }
+                    if s >= 0 && s < 86_400 {
+                        let b = s * US_SEC + (s % 5) * 199_999;
+                        acc.t(1);
+                        let d = guard(|| t.sub_time(Time::try_from_usecs(b).unwrap()).usecs());
+                        if d != Ok(t_us - b) {
+                            acc.fail("C12:Time:sub_time:not-exact-difference", idx, || (format!("Time({t_us}).sub_time(Time({b}))"), format!("{}", t_us - b), format!("{d:?}"), String::new()));
+                        }
+                    }
+                }
+                acc.cls("second_done");
+            }
+        });
+        ctx.require(&r, &["second_done"]);
+    }
+
     // differences
     let np = pool.len() as u64;
     let others: [i64; 3] = [0, 43_200 * US_SEC, US_DAY - 1];
